@@ -285,16 +285,23 @@ where
 {
     fn from(ck: &CommitterKeyStream<E, SG>) -> Self {
         let powers_of_g2 = ck.powers_of_g2.to_vec();
-        // take the first element from the stream
-        let g = *ck
+        // The stream is in decreasing order of powers: keep its last elements, i.e. the
+        // lowest powers, as many as the multi-point verifier needs to commit to an
+        // interpolant over `max_eval_points` points (and at least the generator).
+        let len = ck.powers_of_g.len();
+        assert!(len > 0, "{}", LENGTH_MISMATCH_MSG);
+        let max_eval_points = powers_of_g2.len().saturating_sub(1);
+        let take = max_eval_points.max(1).min(len);
+        let mut powers_of_g = ck
             .powers_of_g
             .iter()
-            .last()
-            .expect(LENGTH_MISMATCH_MSG)
-            .borrow();
+            .skip(len - take)
+            .map(|x| *x.borrow())
+            .collect::<Vec<_>>();
+        powers_of_g.reverse();
         Self {
             powers_of_g2,
-            powers_of_g: vec![g],
+            powers_of_g,
         }
     }
 }
